@@ -100,6 +100,7 @@ def _verify_case(repo, reg, c, ci, case, canary):
             E.stmt_hooks = hooks
             E.raises_decl = c.raises
             E.bvw = c.bitvec
+            E.nl_abstract = bool(getattr(c, "nl_abstract", False))
             E.merge_ifs = bool(getattr(c, "merge_ifs", False))
             outcome = _run_path(E, c, fnode, cls, params, canary)
             work.extend(E.pending)
